@@ -35,9 +35,19 @@ func init() {
 
 type entry struct{ T, S, P string }
 
-func (e entry) Render() string { return e.T + "/" + e.S + e.P }
-func (e entry) ID() string     { return e.T + "/" + e.S }
-func (e entry) JSON() M        { return M{"t": e.T, "s": e.S, "p": e.P} }
+func (e entry) Render() string {
+	if e.T == "" {
+		return ""
+	}
+	return e.T + "/" + e.S + e.P
+}
+func (e entry) ID() string {
+	if e.T == "" {
+		return ""
+	}
+	return e.T + "/" + e.S
+}
+func (e entry) JSON() M { return M{"t": e.T, "s": e.S, "p": e.P} }
 func entryFrom(v any) entry {
 	m := drv.Map(v)
 	return entry{drv.Str(m["t"]), drv.Str(m["s"]), drv.Str(m["p"])}
@@ -128,28 +138,39 @@ func build(d M) (*built, error) {
 	for _, e := range entries(d["produces"]) {
 		produces = append(produces, e.Render())
 	}
-	responses := M{}
-	for _, c := range drv.List(d["declared"]) {
-		if drv.Int(c) == 0 {
-			responses["default"] = M{"description": "default"}
-		} else {
-			responses[fmt.Sprint(drv.Int(c))] = M{"description": "declared"}
-		}
-	}
+	declared := drv.Map(d["declared"])
 	item := M{}
 	for _, m := range methods {
-		op := M{"operationId": "op" + m, "responses": responses}
-		if drv.Str(d["where"]) == "op" {
+		responses := M{}
+		for _, c := range drv.List(declared[m]) {
+			if drv.Int(c) == 0 {
+				responses["default"] = M{"description": "default"}
+			} else {
+				responses[fmt.Sprint(drv.Int(c))] = M{"description": "declared"}
+			}
+		}
+		op := M{"responses": responses}
+		if drv.Bool(d["ids"]) {
+			op["operationId"] = "op" + m // operation ids are optional in Swagger 2.0
+		}
+		if drv.Str(d["where"]) == "op" && len(produces) > 0 {
 			op["produces"] = produces
 		}
-		if drv.Bool(d["secure"]) {
+		switch drv.Str(d["secure"]) {
+		case "basic":
 			op["security"] = []M{{"basic": []string{}}}
+		case "basic-or-key":
+			op["security"] = []M{{"basic": []string{}}, {"key": []string{}}}
+		case "key-or-basic":
+			op["security"] = []M{{"key": []string{}}, {"basic": []string{}}}
+		case "basic-and-key":
+			op["security"] = []M{{"basic": []string{}, "key": []string{}}}
 		}
 		item[strings.ToLower(m)] = op
 	}
 	doc := M{"swagger": "2.0", "info": M{"title": "c08", "version": "1"}, "basePath": "/", "paths": M{"/op": item},
-		"securityDefinitions": M{"basic": M{"type": "basic"}}}
-	if drv.Str(d["where"]) == "global" {
+		"securityDefinitions": M{"basic": M{"type": "basic"}, "key": M{"type": "apiKey", "in": "header", "name": "X-Key"}}}
+	if drv.Str(d["where"]) == "global" && len(produces) > 0 {
 		doc["produces"] = produces
 	}
 	raw, err := json.Marshal(doc)
@@ -163,7 +184,16 @@ func build(d M) (*built, error) {
 	api := untyped.NewAPI(ld).WithoutJSONDefaults()
 	api.DefaultConsumes = runtime.JSONMime
 	api.RegisterConsumer(runtime.JSONMime, runtime.JSONConsumer())
-	api.DefaultProduces = entryFrom(d["default"]).ID()
+	api.DefaultProduces = "" // an API without default producer (WithoutJSONDefaults)
+	if def := entryFrom(d["default"]); def.T != "" {
+		api.DefaultProduces = def.ID()
+	}
+	api.RegisterAuth("key", security.APIKeyAuth("X-Key", "header", func(token string) (interface{}, error) {
+		if token == "good" {
+			return "key-principal", nil
+		}
+		return nil, errors.Unauthenticated("key")
+	}))
 	for _, id := range drv.List(d["registry"]) {
 		api.RegisterProducer(drv.Str(id), probeProducer{drv.Str(id)})
 	}
@@ -232,6 +262,12 @@ func request(rm M) *http.Request {
 		req.SetBasicAuth("u", "p")
 	case "bad":
 		req.SetBasicAuth("u", "wrong")
+	}
+	switch drv.Str(rm["keycreds"]) {
+	case "good":
+		req.Header.Set("X-Key", "good")
+	case "bad":
+		req.Header.Set("X-Key", "wrong")
 	}
 	return req
 }
@@ -347,6 +383,7 @@ func execute(c *drv.Ctx, d M) bool {
 			body = ""
 		}
 		c.W.Event("respond", M{"entry": rm["entry"], "method": rm["method"], "target": rm["target"], "creds": rm["creds"],
+			"keycreds": rm["keycreds"], "declared": drv.Map(d["declared"])[drv.Str(rm["method"])],
 			"accept": rm["accept"], "outcome": out, "status": rw.Code, "ctype": rw.Header().Get("Content-Type"),
 			"produced": nn(rec.produced), "given": given, "body": asciiOnly(body), "errs": nn(rec.errs),
 			"wwwauth": asciiOnly(rw.Header().Get("WWW-Authenticate")), "panic": panicked})
@@ -446,7 +483,20 @@ func contains(es []entry, e entry) bool {
 	return false
 }
 
-func descriptor(declaredProduces, routeOrder []entry, def entry, registry []string, declared []int, idx int) M {
+// declaredFor gives every method its own declared response codes (rotation k of the sets; k < 0: the same set -k-1 for all)
+func declaredFor(k int) M {
+	m := M{}
+	for i, meth := range methods {
+		if k < 0 {
+			m[meth] = declaredSets[-k-1]
+		} else {
+			m[meth] = declaredSets[(k+i)%len(declaredSets)]
+		}
+	}
+	return m
+}
+
+func descriptor(declaredProduces, routeOrder []entry, def entry, registry []string, declared M, idx int) M {
 	ps, rp := []M{}, []M{}
 	for _, e := range declaredProduces {
 		ps = append(ps, e.JSON())
@@ -455,11 +505,11 @@ func descriptor(declaredProduces, routeOrder []entry, def entry, registry []stri
 		rp = append(rp, e.JSON())
 	}
 	return M{"produces": ps, "route_produces": rp, "default": def.JSON(), "registry": registry, "declared": declared,
-		"where": []string{"op", "global"}[idx%2], "secure": false, "realm": "", "authkind": 0, "reqs": []M{}}
+		"where": []string{"op", "global"}[idx%2], "ids": (idx/2)%2 == 0, "secure": "none", "realm": "", "authkind": 0, "reqs": []M{}}
 }
 
 func req(entryPoint, method, target, creds string, accept any, outcome M) M {
-	return M{"entry": entryPoint, "method": method, "target": target, "creds": creds, "accept": accept, "outcome": outcome}
+	return M{"entry": entryPoint, "method": method, "target": target, "creds": creds, "keycreds": "", "accept": accept, "outcome": outcome}
 }
 
 func generate(c *drv.Ctx) {
@@ -488,7 +538,8 @@ func generate(c *drv.Ctx) {
 						nDecl = 4
 					}
 					for k := 0; k < nDecl; k++ {
-						d := descriptor(set, order, def, reg, declaredSets[(idx+k)%len(declaredSets)], idx)
+						// every method declares its own codes; half of the APIs have no operation ids
+						d := descriptor(set, order, def, reg, declaredFor(idx+k), idx)
 						reqs := []M{}
 						rot := idx
 						for _, acc := range accepts {
@@ -519,25 +570,87 @@ func generate(c *drv.Ctx) {
 		}
 	}
 	c.Extra["exhaustive_apis"] = idx
-	// (ii) basic authentication: realm x kind of authenticator x credentials x both entry points
-	for _, realm := range []string{"", "API", "my realm", "R1"} {
-		for kind := 0; kind < 3; kind++ {
-			for _, set := range [][]entry{{}, {pool[2]}, {pool[0], pool[1]}} {
-				routeSet := append(append([]entry{}, set...), jsonE)
-				d := descriptor(set, routeSet, jsonE, registries[0], []int{200}, idx)
-				d["secure"], d["realm"], d["authkind"] = true, realm, kind
-				reqs := []M{}
-				for _, creds := range []string{"good", "bad", "none"} {
-					for ai, acc := range accepts {
-						for _, ep := range []string{"untyped", "direct"} {
-							reqs = append(reqs, req(ep, methods[(ai+idx)%4], "op", creds, acc, outcomes[(ai+idx)%4]))
+	// (ii) basic authentication alone and combined with an API key (alternatives in both orders, one AND group):
+	//      realm x kind of authenticator x credentials of both schemes x both entry points
+	for _, mode := range []string{"basic", "basic-or-key", "key-or-basic", "basic-and-key"} {
+		for _, realm := range []string{"", "API", "my realm", "R1"} {
+			for kind := 0; kind < 3; kind++ {
+				for si, set := range [][]entry{{}, {pool[2]}, {pool[0], pool[1]}} {
+					if mode != "basic" && si != (kind+len(realm))%3 {
+						continue
+					}
+					routeSet := append(append([]entry{}, set...), jsonE)
+					d := descriptor(set, routeSet, jsonE, registries[0], declaredFor(-1), idx)
+					d["secure"], d["realm"], d["authkind"] = mode, realm, kind
+					reqs := []M{}
+					keys := []string{""}
+					if mode != "basic" {
+						keys = []string{"good", "bad", "none"}
+					}
+					for _, creds := range []string{"good", "bad", "none"} {
+						for _, kc := range keys {
+							for ai, acc := range accepts {
+								if mode != "basic" && ai%3 != 0 {
+									continue
+								}
+								for _, ep := range []string{"untyped", "direct"} {
+									r := req(ep, methods[(ai+idx)%4], "op", creds, acc, outcomes[(ai+idx)%4])
+									r["keycreds"] = kc
+									reqs = append(reqs, r)
+								}
+							}
 						}
 					}
+					d["reqs"] = reqs
+					c.Case(d)
+					idx++
 				}
-				d["reqs"] = reqs
-				c.Case(d)
-				idx++
 			}
+		}
+	}
+	// (ii') APIs without default producer (WithoutJSONDefaults): operations that declare no produces answer HEAD
+	//       requests and 204 responses without needing any producer; a text-only API serves its declared type
+	none := entry{}
+	for _, ids := range []bool{true, false} {
+		for k := 0; k < len(declaredSets); k++ {
+			d := descriptor(nil, nil, none, []string{"t/p"}, declaredFor(k), idx)
+			d["ids"] = ids
+			reqs := []M{}
+			for _, acc := range []any{accepts[0], accepts[1], accepts[3]} {
+				for _, ep := range []string{"untyped", "direct"} {
+					for mi, m := range methods {
+						codes := declaredSets[(k+mi)%len(declaredSets)]
+						min := 0
+						for _, cde := range codes {
+							if cde >= 200 && cde < 300 && (min == 0 || cde < min) {
+								min = cde
+							}
+						}
+						if m == "HEAD" || min == 204 || min == 0 {
+							reqs = append(reqs, req(ep, m, "op", "", acc, outcomes[0]), req(ep, m, "op", "", acc, outcomes[1]))
+						}
+						reqs = append(reqs, req(ep, m, "op", "", acc, outcomes[3]))
+					}
+				}
+			}
+			d["reqs"] = reqs
+			c.Case(d)
+			idx++
+			// text-only API: produces [t/p], producer registered, no default
+			tp := entry{"t", "p", ""}
+			d2 := descriptor([]entry{tp}, []entry{tp}, none, []string{"t/p"}, declaredFor(k), idx)
+			d2["ids"] = ids
+			reqs = []M{}
+			for _, acc := range []any{accepts[0], accepts[1], accepts[2], accepts[3], accepts[6], accepts[9]} {
+				for oi, out := range outcomes[:4] {
+					for _, ep := range []string{"untyped", "direct"} {
+						reqs = append(reqs, req(ep, methods[(oi+k)%4], "op", "", acc, out))
+					}
+				}
+			}
+			d2["reqs"] = reqs
+			c.Case(d2)
+			idx++
 		}
 	}
 	// (iii) seeded: larger produces sets with other parameter spellings, random Accept headers, every outcome class
@@ -565,9 +678,10 @@ func generate(c *drv.Ctx) {
 				reg = append(reg, id)
 			}
 		}
-		d := descriptor(set, routeSet, def, reg, declaredSets[c.Rng.Intn(len(declaredSets))], c.Rng.Intn(2))
-		if c.Rng.Intn(4) == 0 {
-			d["secure"], d["realm"], d["authkind"] = true, []string{"", "my realm", "x"}[c.Rng.Intn(3)], c.Rng.Intn(3)
+		d := descriptor(set, routeSet, def, reg, declaredFor(c.Rng.Intn(len(declaredSets))), c.Rng.Intn(4))
+		if c.Rng.Intn(3) == 0 {
+			d["secure"] = []string{"basic", "basic-or-key", "key-or-basic", "basic-and-key"}[c.Rng.Intn(4)]
+			d["realm"], d["authkind"] = []string{"", "my realm", "x"}[c.Rng.Intn(3)], c.Rng.Intn(3)
 		}
 		reqs := []M{}
 		for k := 0; k < 40; k++ {
@@ -580,12 +694,17 @@ func generate(c *drv.Ctx) {
 				}
 				acc = []any{rs}
 			}
-			creds := ""
-			if drv.Bool(d["secure"]) {
+			creds, keycreds := "", ""
+			if drv.Str(d["secure"]) != "none" {
 				creds = []string{"good", "good", "bad", "none"}[c.Rng.Intn(4)]
+				if drv.Str(d["secure"]) != "basic" {
+					keycreds = []string{"good", "bad", "none", "none"}[c.Rng.Intn(4)]
+				}
 			}
 			target := []string{"op", "op", "op", "op", "op", "op", "op", "missing", "wrongmethod"}[c.Rng.Intn(9)]
-			reqs = append(reqs, req([]string{"untyped", "direct"}[c.Rng.Intn(2)], methods[c.Rng.Intn(4)], target, creds, acc, outcomes[c.Rng.Intn(len(outcomes))]))
+			r := req([]string{"untyped", "direct"}[c.Rng.Intn(2)], methods[c.Rng.Intn(4)], target, creds, acc, outcomes[c.Rng.Intn(len(outcomes))])
+			r["keycreds"] = keycreds
+			reqs = append(reqs, r)
 		}
 		d["reqs"] = reqs
 		c.Case(d)
